@@ -1051,6 +1051,8 @@ class Executor:
     # ------------------------------------------------------------ calls
     PANIC_RE = re.compile(r"panicking::|::panic_fmt|unwrap_failed|expect_failed|slice_index_fail|slice_start_index_len_fail|slice_end_index_len_fail|panic_bounds_check|::begin_panic|assert_failed|unreachable_display|core::panicking")
 
+    ALLOC_RE = re.compile(r"(?:Vec|VecDeque|String|AHashMap|HashMap|AHashSet|HashSet)(?:::<(.*)>)?::(?:with_capacity|reserve|reserve_exact|resize)$|vec::from_elem::<(.*)>$")
+
     def exec_call(self, st, term, outcomes):
         _, dest, callee, arg_ops, targets = term
         fr = st.frames[-1]
@@ -1065,6 +1067,12 @@ class Executor:
         if self.PANIC_RE.search(callee):
             st.events.append(("call", callee, args, None))
             raise PathEnd("panic", "call to " + callee[:100] + " @ " + fr.body.name.split("::")[-1] + ":" + fr.bb)
+        am = self.ALLOC_RE.search(callee)
+        if am:
+            # capacity requests are logged (element count, element type) whatever the container model does with them
+            cnt = [a for a in args if isinstance(a, I)]
+            if cnt:
+                st.events.append(("alloc", callee, [cnt[0]], am.group(1)))
         # user hook first (same result protocol as the models)
         cands = list(self.models)
         if self.on_call is not None:
